@@ -45,11 +45,18 @@ pub struct Shape {
     pub datum_on_change: bool,
     pub token_in_change: bool,
     pub metadata: bool,
+    /// an optional output `output ? gift { amount: Ada(g) }` declared first; with g = 0 it is dropped from
+    /// the body, so that the body has fewer outputs than the template
+    pub gift: Option<i128>,
 }
 
 pub fn program(s: &Shape) -> Program {
     let q = || E::Ada(Box::new(E::Param("quantity".into())));
-    let mut outputs = vec![Output { name: Some("target".into()), to: Some(E::Party("Receiver".into())), amount: Some(q()), ..Default::default() }];
+    let mut outputs = vec![];
+    if let Some(g) = s.gift {
+        outputs.push(Output { name: Some("gift".into()), to: Some(E::Party("Receiver".into())), amount: Some(E::Ada(Box::new(E::Int(g)))), optional: true, ..Default::default() });
+    }
+    outputs.push(Output { name: Some("target".into()), to: Some(E::Party("Receiver".into())), amount: Some(q()), ..Default::default() });
     for k in 0..s.extra_outputs {
         let name = format!("extra{k}");
         let amount = if s.min_utxo_on.contains(&k) { E::Add(Box::new(E::MinUtxo(name.clone())), Box::new(E::Ada(Box::new(E::Int(k as i128))))) } else { E::Ada(Box::new(E::Int(1_500_000 + k as i128))) };
@@ -58,6 +65,9 @@ pub fn program(s: &Shape) -> Program {
     if s.change {
         // change = source - q - extras - fees
         let mut e = E::Sub(Box::new(E::InputValue("source".into())), Box::new(q()));
+        if let Some(g) = s.gift {
+            e = E::Sub(Box::new(e), Box::new(E::Ada(Box::new(E::Int(g)))));
+        }
         for k in 0..s.extra_outputs {
             let name = format!("extra{k}");
             let amount = if s.min_utxo_on.contains(&k) { E::Add(Box::new(E::MinUtxo(name)), Box::new(E::Ada(Box::new(E::Int(k as i128))))) } else { E::Ada(Box::new(E::Int(1_500_000 + k as i128))) };
@@ -135,6 +145,7 @@ impl Property for C05 {
             datum_on_change: rng.chance(1, 4),
             token_in_change: rng.chance(1, 4),
             metadata: rng.chance(1, 5),
+            gift: None,
         };
         if !shape.min_utxo_on.is_empty() {
             ctx.count("shape/min_utxo");
